@@ -137,7 +137,11 @@ def real_kernel():
 
 
 def warm():
-    """compile the real kernel once in the parent so forked jobs inherit it"""
+    """compile the real kernel once in the parent so forked jobs inherit it; validate the numpy stand-in against numpy"""
+    from vlib import selfcheck
+    if symx.CTX is None:
+        symx.CTX = symx.Ctx()
+    selfcheck.check_xnp()
     real_mi([0, 1], [0, 1])
 
 
